@@ -220,6 +220,9 @@ var RacePass func()
 
 var registry = map[string]*Check{}
 
+// GenericReplay re-executes the documents found in a witness (set by the checks package).
+var GenericReplay func(witness json.RawMessage) string
+
 // DebugCmds are developer commands (`vcheck debug <name> ...`), never part of a verdict.
 var DebugCmds = map[string]func(args []string){}
 
@@ -683,7 +686,11 @@ func Replay(path string) int {
 	fmt.Printf("property=%s oracle=%s sig=%s\nrecorded: %s\nwitness: %s\n", v.Property, v.Oracle, v.Sig, v.Detail, string(v.Witness))
 	ch := Lookup(v.Property)
 	if ch == nil || ch.Replay == nil {
-		fmt.Println("(no replayer registered for this check; witness shown above)")
+		if GenericReplay != nil {
+			fmt.Println(GenericReplay(v.Witness))
+		} else {
+			fmt.Println("(no replayer registered for this check; witness shown above)")
+		}
 		return 0
 	}
 	out, violates := ch.Replay(v.Witness)
